@@ -22,6 +22,7 @@ type Violation struct {
 	Kind   string   `json:"kind"` // "assert" | "panic" | "unwind" | "deadlock"
 	Msg    string   `json:"msg"`
 	Vector []uint64 `json:"vector"` // ND draws in order, from the solver's model
+	Aux    []uint64 `json:"aux,omitempty"` // auxiliary draws (clock instants, opaque results) in order
 	Names  []string `json:"names,omitempty"`
 	Class  string   `json:"class,omitempty"` // harness-provided classification (Note("class", ...))
 	Notes  []string `json:"notes,omitempty"`
@@ -33,6 +34,7 @@ type JobResult struct {
 	Harness      string         `json:"harness"`
 	Params       []int          `json:"params"`
 	Paths        int            `json:"paths"`
+	Nontrivial   int            `json:"nontrivial"`
 	Ends         map[string]int `json:"ends"`
 	Asserts      int            `json:"asserts"`      // assertion obligations reached (path × assert)
 	Discharged   int            `json:"discharged"`   // decided unsat (or trivially true)
@@ -80,6 +82,8 @@ type Explorer struct {
 	res       *JobResult
 	params    []int
 	concVec   []uint64 // concrete mode: ND draws come from here
+	concAux   []uint64
+	concolic  Model // selftest: decisions are taken by evaluating under this model
 	concMode  bool
 	notes     []string
 	class     string
@@ -223,6 +227,15 @@ func (e *Explorer) decide(c *Term) bool {
 	}
 	idx := len(e.path)
 	var choice bool
+	if e.concolic != nil {
+		v := evalTerm(c, e.concolic, map[*Term]uint64{}) == 1
+		if v {
+			e.addPC(c)
+		} else {
+			e.addPC(Not(c))
+		}
+		return v
+	}
 	// already implied syntactically by the path condition: no fork, no query, no decision record
 	if e.pcSet[c] {
 		return true
@@ -373,8 +386,19 @@ func (e *Explorer) fresh(w int, name string) *Term {
 
 func (e *Explorer) freshAux(w int, tag string) *Term {
 	v := Var(fmt.Sprintf("a%d_%s_%d", e.nAux, tag, w), w)
+	i := e.nAux
 	e.nAux++
 	e.aux = append(e.aux, v)
+	if e.concMode && e.concAux != nil {
+		var x uint64
+		if i < len(e.concAux) {
+			x = e.concAux[i]
+		}
+		if w == 0 {
+			return B(x != 0)
+		}
+		return C(w, x)
+	}
 	return v
 }
 
@@ -392,6 +416,9 @@ func (e *Explorer) recordViolation(kind, msg string, m Model) {
 		v.Vector = append([]uint64{}, e.concVec...)
 	} else {
 		v.Vector = e.vectorFrom(m)
+		for _, a := range e.aux {
+			v.Aux = append(v.Aux, m[a]&mask64(a.w))
+		}
 	}
 	v.Names = append([]string{}, e.names...)
 	e.res.Violations = append(e.res.Violations, v)
@@ -479,6 +506,7 @@ type Job struct {
 	MaxPaths  int      `json:"max_paths,omitempty"`
 	MaxSteps  int      `json:"max_steps,omitempty"`
 	Vector    []uint64 `json:"vector,omitempty"` // concrete mode
+	AuxVector []uint64 `json:"aux_vector,omitempty"`
 	Concrete  bool     `json:"concrete,omitempty"`
 	Cross     int      `json:"cross,omitempty"`
 	WantFuncs bool     `json:"want_funcs,omitempty"`
@@ -512,7 +540,7 @@ func runJob(w *World, job Job) (res *JobResult) {
 	q0, d0 := sol.queries, sol.dur
 	sol.maxQuery = 0
 	ex := &Explorer{sol: sol, res: res, params: job.Params, funcsSeen: map[*ssa.Function]bool{}, stubs: map[string]bool{},
-		concMode: job.Concrete, concVec: job.Vector, crossEvery: job.Cross, maxViol: job.MaxViol}
+		concMode: job.Concrete, concVec: job.Vector, concAux: job.AuxVector, crossEvery: job.Cross, maxViol: job.MaxViol}
 	if ex.maxViol == 0 {
 		ex.maxViol = 3
 	}
@@ -564,6 +592,9 @@ func runJob(w *World, job Job) (res *JobResult) {
 		end := runPath(w, in, fn)
 		res.Steps += in.steps
 		res.NVars = max(res.NVars, len(ex.vars))
+		if len(ex.pc) > 0 {
+			res.Nontrivial++
+		}
 		if job.Concrete {
 			res.Observed = in.observed
 		}
